@@ -9,7 +9,9 @@ HTML attribute value or in element content.  Calls of template macros (`proc_lin
 `macros.variable_list(...)`, `loop(...)`) print nothing themselves -- the expressions of the macro
 body are sites of their own -- and are only counted.
 
-Also emitted: `autoescape` (the keyword of jinja2.Environment(...) in ford/output.py, false when
+Also emitted: `text_escaped_at_source` (the display properties FortranVariable.full_type /
+full_declaration, when an ast check of ford/sourceform.py finds that every interpolated piece of source
+text goes through `_esc`, the text-level escape of & < >), `autoescape` (the keyword of jinja2.Environment(...) in ford/output.py, false when
 absent), the registered custom filters.
 
 Fail closed (exit 1, nothing written): an expression that is neither a macro call nor
@@ -63,6 +65,48 @@ def python_side():
         if isinstance(n, ast.Attribute) and n.attr == "autoescape" and ast.unparse(n.value) == "env":
             refuse("env.autoescape is assigned / read outside the constructor")
     return auto, filters
+
+
+ESC_BODY = "return str(text).replace('&', '&amp;').replace('<', '&lt;').replace('>', '&gt;')"
+RAW_OK = {"full_type": {"', '.join(parameter_parts)", "proto"},
+          "full_declaration": {"self.full_type", "''.join(attributes)"}}
+
+
+def source_side():
+    """which display properties of FortranVariable escape the source text they are built from:
+    every {interpolation} of the property body is either `_esc(...)` or one of the known pieces that are
+    markup / already escaped, and `_esc` is the text-level escape of & < >.  -> list of property names"""
+    tree = ast.parse((REPO / "ford" / "sourceform.py").read_text())
+    funcs = {n.name: n for n in tree.body if isinstance(n, ast.FunctionDef)}
+    esc = funcs.get("_esc")
+    if esc is None:
+        return []
+    body = [b for b in esc.body if not (isinstance(b, ast.Expr) and isinstance(b.value, ast.Constant))]
+    if len(esc.args.args) != 1 or esc.args.args[0].arg != "text" or len(body) != 1 or ast.unparse(body[0]) != ESC_BODY:
+        return []
+    cls = [n for n in tree.body if isinstance(n, ast.ClassDef) and n.name == "FortranVariable"]
+    if len(cls) != 1:
+        refuse("class FortranVariable not found exactly once")
+    out = []
+    for prop in ("full_type", "full_declaration"):
+        fn = [n for n in cls[0].body if isinstance(n, ast.FunctionDef) and n.name == prop]
+        if len(fn) != 1:
+            refuse(f"FortranVariable.{prop} not found")
+        ok, used = True, False
+        for node in ast.walk(fn[0]):
+            if isinstance(node, ast.FormattedValue):
+                v = node.value
+                if isinstance(v, ast.Call) and isinstance(v.func, ast.Name) and v.func.id == "_esc" and len(v.args) == 1:
+                    used = True
+                elif ast.unparse(v) not in RAW_OK[prop]:
+                    ok = False
+            # source text must not reach the result by other means than an f-string
+            if isinstance(node, ast.BinOp) and isinstance(node.op, ast.Add) and not isinstance(node.right, ast.JoinedStr) \
+                    and not isinstance(node.left, ast.JoinedStr):
+                ok = False
+        if ok and used and (prop != "full_declaration" or "full_type" in out):
+            out.append(prop)
+    return out
 
 
 NAME = r"[A-Za-z_][A-Za-z_0-9]*"
@@ -198,7 +242,7 @@ def extract():
                           "root": root, "field": field, "filters": names,
                           "attr": in_attribute(nocomment, m.start())})
     return {"autoescape": auto, "custom_filters": sorted(custom), "sites": sites, "macro_calls": ncalls,
-            "templates": files}
+            "templates": files, "text_escaped_at_source": source_side()}
 
 
 def cstr(x):
@@ -217,6 +261,10 @@ def emit(x):
     A("(* jinja2.Environment(... autoescape=?) in ford/output.py *)")
     A(f"Definition autoescape : bool := {'true' if x['autoescape'] else 'false'}.")
     A("Definition custom_filters : list str := [" + "; ".join(cstr(f) for f in x["custom_filters"]) + "].")
+    A("(* display properties of FortranVariable (ford/sourceform.py) that escape & < > in the source text they are")
+    A("   built from (every interpolation is _esc(...) or a piece that is markup / already escaped) *)")
+    A("Definition text_escaped_at_source : list str := [" +
+      "; ".join(cstr(f) for f in x["text_escaped_at_source"]) + "].")
     A("")
     A("Inductive context := InText | InAttribute.")
     A("Record site := mk_site { st_key : str; st_template : str; st_line : nat; st_root : str; st_field : str;")
